@@ -246,12 +246,22 @@ class Device:
         self.default = dict(default)
         self.enoent = set(enoent)
         self.ext = {}                   # id -> extended type byte (MISC_GET_EXTENDED_TYPE)
+        self.table = None               # [(index, name, group, type code, ro, extended)] served on the TOC channel
+        self.crc = 0
         self.stored = {}                # insertion order irrelevant: compared sorted
         self.out = []                   # [(chan, bytes)]
 
     def recv(self, chan, data):
         data = bytes(data)
-        if chan == 1:
+        if chan == 0 and data[:1] == b'\x03' and self.table is not None:       # CMD_TOC_INFO_V2
+            self.out.append((0, b'\x03' + struct.pack('<HI', len(self.table), self.crc)))
+        elif chan == 0 and data[:1] == b'\x02' and self.table is not None:     # CMD_TOC_ITEM_V2
+            k = int.from_bytes(data[1:3], 'little')
+            if k < len(self.table):
+                (i, n, g, ty, ro, ext) = self.table[k]
+                self.out.append((0, b'\x02' + data[1:3] + bytes([ty | (0x40 if ro else 0) | (0x10 if ext else 0)]) +
+                                 ('g%d' % g).encode() + b'\0' + ('n%d' % n).encode() + b'\0'))
+        elif chan == 1:
             i = int.from_bytes(data[:2], 'little')
             self.out.append((1, data[:2] + b'\x00' + self.store.get(i, b'')))
         elif chan == 2:
@@ -354,6 +364,39 @@ def exn_code(e):
     return 9
 
 
+# The TOC cache file format of the library at HEAD, spelled out here on purpose (NOT produced with the library under test, so that
+# its writer and reader cannot drift together): <dir>/<CRC as %08X>.json, json.dumps(indent=2) of {group: {name: element}}, an
+# element being the dict below; "access" is 0 for read/write and 1 for read-only parameters.
+CACHE_CTYPES = {0x08: ('uint8_t', '<B'), 0x09: ('uint16_t', '<H'), 0x0A: ('uint32_t', '<L'), 0x0B: ('uint64_t', '<Q'),
+                0x00: ('int8_t', '<b'), 0x01: ('int16_t', '<h'), 0x02: ('int32_t', '<i'), 0x03: ('int64_t', '<q'),
+                0x06: ('float', '<f'), 0x07: ('double', '<d')}
+CACHE_ELEMENT = ('    "{name}": {{\n'
+                 '      "__class__": "ParamTocElement",\n'
+                 '      "ident": {ident},\n'
+                 '      "group": "{group}",\n'
+                 '      "name": "{name}",\n'
+                 '      "ctype": "{ctype}",\n'
+                 '      "pytype": "{pytype}",\n'
+                 '      "access": {access},\n'
+                 '      "extended": {extended}\n'
+                 '    }}')
+
+
+def cache_file_text(table):
+    """table: [(index, name, group, type code, ro, extended)] -> text of the cache file HEAD would have written for it"""
+    groups = []
+    for (i, n, g, ty, ro, ext) in table:
+        if g not in groups:
+            groups.append(g)
+    parts = []
+    for g in groups:
+        els = [CACHE_ELEMENT.format(name='n%d' % n, ident=i, group='g%d' % g2, ctype=CACHE_CTYPES[ty][0], pytype=CACHE_CTYPES[ty][1],
+                                    access=1 if ro else 0, extended='true' if ext else 'false')
+               for (i, n, g2, ty, ro, ext) in table if g2 == g]
+        parts.append('  "g%d": {\n%s\n  }' % (g, ',\n'.join(els)))
+    return '{\n' + ',\n'.join(parts) + '\n}'
+
+
 class Harness:
     """cfg: dict(toc=[[id, name, group, tycode, ro, pers], ...], cb_param=[[name, cb]], cb_group=[[group, cb]],
     cb_all=[cb], dev_init={id: bytes}, dev_default={id: bytes}, dev_enoent=[id], version=7)"""
@@ -401,12 +444,14 @@ class Harness:
         cf.param._useV2 = ver >= 4
         self.elems = {}
         for (i, n, g, ty, ro, pers) in cfg['toc']:
+            self.elems[n] = (i, n, g, ty, ro, pers)
+            if 'toc_source' in cfg:
+                continue            # the table is fetched by the real Param.refresh_toc / TocFetcher below
             meta = ty | (0x40 if ro else 0) | (0x10 if pers else 0)
             e = ParamTocElement(i, bytes([meta]) + ('g%d' % g).encode() + b'\0' + ('n%d' % n).encode() + b'\0')
             if pers and 'ext' not in cfg:
                 e.mark_persistent()
             cf.param.toc.add_element(e)
-            self.elems[n] = (i, n, g, ty, ro, pers)
         self.by_cname = {self.cname(n): self.elems[n] for n in self.elems}
         for (n, cb) in cfg['cb_param']:
             g = self.elems[n][2] if n in self.elems else (n % 3 if cfg.get('fixed_groups') else 0)
@@ -423,6 +468,56 @@ class Harness:
         self.sched.resume(self.dispatcher)      # -> link.receive_packet()
         self._expect(self.updater, 'get')
         self._expect(self.dispatcher, 'recv')
+        if 'toc_source' in cfg:
+            self._fetch_table(cfg)
+            self.base_cbs = len(cf.incoming.cb)
+
+    def _fetch_table(self, cfg):
+        """The parameter table through the real Param.refresh_toc (TocFetcher + TocCache + _ExtendedTypeFetcher):
+        toc_source = {'kind': 'cache_ro' | 'cache_rw' | 'download', 'crc': n, 'dir': path}.  For the cache kinds the file
+        <dir>/<crc>.json has been written by the caller with cache_file_text; 'download' starts with empty cache dirs."""
+        from cflib.crazyflie.toccache import TocCache
+        src = cfg['toc_source']
+        ext_nonpers = set(cfg.get('ext_nonpers', []))
+        self.dev.table = [(i, n, g, ty, ro, bool(pers) or i in ext_nonpers) for (i, n, g, ty, ro, pers) in cfg['toc']]
+        self.dev.crc = src['crc']
+        self.dev.ext = {i: (1 if pers else 0) for (i, n, g, ty, ro, pers) in cfg['toc']}
+        if src['kind'] == 'cache_ro':
+            cache = TocCache(ro_cache=src['dir'], rw_cache=None)
+        elif src['kind'] == 'cache_rw':
+            cache = TocCache(ro_cache=None, rw_cache=src['dir'])
+        else:
+            cache = TocCache(ro_cache=None, rw_cache=src['dir'])
+        done = []
+        self.cf.param.refresh_toc(lambda: done.append(1), cache)
+        self.toc_requests = 0
+        for _ in range(400):
+            if done:
+                break
+            ext = [t for t in self.sched.info if type(t).__name__ == '_ExtendedTypeFetcher' and not self.sched.info[t]['done']]
+            moved = False
+            for t in ext:
+                w = self.sched.waiting(t)
+                if w and w[0] == 'start':
+                    self.sched.resume(t)
+                    moved = True
+                elif w and w[0] == 'get' and t.request_queue.qsize():
+                    self.sched.resume(t)
+                    moved = True
+                elif w and w[0] == 'acquire' and not t._lock.l:
+                    self.sched.resume(t)
+                    moved = True
+            if not moved and self.dev.out:
+                if self.dev.out[0][0] == 0 and self.dev.out[0][1][:1] == b'\x02':
+                    self.toc_requests += 1
+                self.ev_deliver()
+                moved = True
+            if not moved:
+                break
+        if not done:
+            raise HarnessError('parameter table fetch did not finish')
+        self.table_was_downloaded = self.toc_requests > 0
+        self.log[:] = []
 
     def cname(self, n):
         if n in self.elems:
